@@ -423,7 +423,14 @@ func runC01Once(c c01Case, st *hx.Stats) error {
 		case "trailing":
 			arg = root + "/"
 		case "updown":
-			arg = filepath.Join(outer, "unrelated", "..", c.RootName)
+			arg = outer + "/unrelated/../" + c.RootName // as written (filepath.Join would tidy it up)
+		case "linkup":
+			// ".." behind a symlink: the system resolves it to the link target's parent, tidying the text up first
+			// names another place. The root is the directory the operator's shell would enter with this spelling.
+			if err := os.Symlink(root, filepath.Join(outer, "unrelated", "via")); err != nil {
+				return err
+			}
+			arg = outer + "/unrelated/via/../" + c.RootName
 		}
 		var extra []string
 		if c.AllowWrite {
@@ -529,7 +536,7 @@ func TestC01Bin(t *testing.T) {
 	hx.RunProp(t, st, func(t *rapid.T) c01Case {
 		c := genC01(t)
 		c.Target = "bin"
-		c.Spelling = rapid.SampledFrom([]string{"abs", "rel", "dot", "dotslash", "trailing", "updown"}).Draw(t, "spelling")
+		c.Spelling = rapid.SampledFrom([]string{"abs", "rel", "dot", "dotslash", "trailing", "updown", "linkup"}).Draw(t, "spelling")
 		// more requests per server start
 		pool := hx.PoolOf(c.Tree)
 		for i := 0; i < 20; i++ {
